@@ -32,6 +32,8 @@ ASSUMPTIONS = [
     "the peer address is what the channel was given by accept() (the harness passes it to HTTPChannel as the real server does); for the unix server it is ('localhost', None)",
     "'verbatim' (clear off) means: the value the request parser delivers for that header name -- field values stripped of SP/HTAB, repeated lines joined with ', ' in order; header names containing '_' never reach the environ",
     "trusted_proxy='*' is outside the quantifier (every peer is trusted)",
+    "a trusted_proxy component written with a leading zero is decimal or names nobody: the peer that is its octal reading (127.0.0.010 -> 127.0.0.8) is not the configured proxy",
+    "a trusted_proxy given as a name is judged under a name service the peers control: every reverse lookup answers with the configured name, the name itself resolves to an address no peer has",
     "values are legal HTTP field values (HTAB, SP, VCHAR, obs-text); anything else is refused by the request parser before the middleware runs (C06/C10)",
     "only str / tuple / bool environ values are compared (wsgi.input is compared by content; wsgi.errors, wsgi.file_wrapper and waitress.client_disconnected are per-request objects)",
 ]
@@ -41,6 +43,71 @@ PREFIX_PEERS = [
     "10.0.0.10", "10.0.0.1 ", "110.0.0.1", "10.0.0", "10.0.0.", "10.0.0.11", " 10.0.0.1", "10.0.0.1.", "010.0.0.1",
     "10.0.0.1:80", "10.0.0.100", "::10.0.0.1", "0::10.0.0.1", "::0:10.0.0.1",
 ]
+# trusted_proxy given as a name.  The name service is the attacker's: the reverse record of every
+# peer claims the configured name, while the name itself resolves to FORWARD_OF_NAME, an address no
+# peer of the workload has -- so under any reading of a host-name setting the peer is not the proxy.
+# trusted_proxy written with a leading zero.  Such a component is decimal (127.0.0.010 = 127.0.0.10) or
+# the setting names nobody; the octal reading (CVE-2021-29921) names a host the operator did not write.
+# Peers here are the octal readings only; the decimal reading is never used as a peer.
+OCTAL_PROXIES = {"127.0.0.010": "127.0.0.8", "010.0.0.1": "8.0.0.1", "192.168.010.1": "192.168.8.1"}
+NAMED_PROXIES = ["proxy.internal", "localhost", "edge-1"]
+FORWARD_OF_NAME = "10.9.9.9"
+_RESOLVER = {"name": None, "calls": 0}
+
+
+def install_hostile_resolver():
+    import socket
+
+    if getattr(socket, "_vf_hostile", False):
+        return
+    socket._vf_hostile = True
+    o_byaddr, o_fqdn, o_byname, o_byname_ex, o_gai, o_gni = (
+        socket.gethostbyaddr, socket.getfqdn, socket.gethostbyname, socket.gethostbyname_ex, socket.getaddrinfo,
+        socket.getnameinfo)
+
+    def gethostbyaddr(addr):
+        name = _RESOLVER["name"]
+        if name is None:
+            return o_byaddr(addr)
+        _RESOLVER["calls"] += 1
+        return (name, [name.upper()], [addr])
+
+    def getfqdn(name=""):
+        n = _RESOLVER["name"]
+        if n is None:
+            return o_fqdn(name)
+        _RESOLVER["calls"] += 1
+        return n
+
+    def gethostbyname(host):
+        if _RESOLVER["name"] is None:
+            return o_byname(host)
+        _RESOLVER["calls"] += 1
+        return FORWARD_OF_NAME
+
+    def gethostbyname_ex(host):
+        if _RESOLVER["name"] is None:
+            return o_byname_ex(host)
+        _RESOLVER["calls"] += 1
+        return (host, [], [FORWARD_OF_NAME])
+
+    def getaddrinfo(host, port, *a, **kw):
+        if _RESOLVER["name"] is None:
+            return o_gai(host, port, *a, **kw)
+        _RESOLVER["calls"] += 1
+        return [(socket.AF_INET, socket.SOCK_STREAM, 6, "", (FORWARD_OF_NAME, port or 0))]
+
+    def getnameinfo(sockaddr, flags):
+        n = _RESOLVER["name"]
+        if n is None:
+            return o_gni(sockaddr, flags)
+        _RESOLVER["calls"] += 1
+        return (n, str(sockaddr[1]))
+
+    socket.gethostbyaddr, socket.getfqdn, socket.gethostbyname = gethostbyaddr, getfqdn, gethostbyname
+    socket.gethostbyname_ex, socket.getaddrinfo, socket.getnameinfo = gethostbyname_ex, getaddrinfo, getnameinfo
+
+
 OTHER_PEERS = ["10.0.0.2", "192.0.2.7", "127.0.0.1", "::1", "localhost", "2001:db8::1", "10.0.1.1", "198.51.100.10"]
 
 
@@ -49,7 +116,7 @@ def required_counters(tier):
 
     need = [
         "pairs", "clear:on", "clear:off", "peer:tcp", "peer:unix", "peer:prefix-of-trusted", "trusted:none",
-        "trusted:addr", "alias:underscore", "alias:case", "dup-lines", "log:on", "trusted-runs",
+        "trusted:addr", "trusted:name", "alias:underscore", "alias:case", "dup-lines", "log:on", "trusted-runs",
     ]
     need += ["would-change:" + v for v in P.SEVEN]
     need += ["value:" + c for c in ("wellformed", "malformed", "degenerate", "hostile", "mutated")]
@@ -84,6 +151,13 @@ def all_configs():
         for clear in (True, False):
             out.append({"unix": False, "cfg": {"trusted_proxy": "fe80::2%eth0", "trusted_proxy_headers": list(kinds), "trusted_proxy_count": 1,
                                                "clear_untrusted_proxy_headers": clear, "log_untrusted_proxy_headers": not clear}})
+        # a proxy configured by name, under a name service the peers control
+        out.append({"unix": False, "cfg": {"trusted_proxy": NAMED_PROXIES[len(out) % len(NAMED_PROXIES)], "trusted_proxy_headers": list(kinds),
+                                           "trusted_proxy_count": 1 + len(out) % 2, "clear_untrusted_proxy_headers": len(out) % 4 < 2,
+                                           "log_untrusted_proxy_headers": False}})
+        out.append({"unix": False, "cfg": {"trusted_proxy": sorted(OCTAL_PROXIES)[len(out) % len(OCTAL_PROXIES)], "trusted_proxy_headers": list(kinds),
+                                           "trusted_proxy_count": 1, "clear_untrusted_proxy_headers": len(out) % 4 < 2,
+                                           "log_untrusted_proxy_headers": False}})
         for count in (1, 3):
             for clear in (True, False):
                 out.append({
@@ -214,6 +288,10 @@ def pick_peer(rng, conf):
         return ["127.0.0.1", port], "unix"  # replaced by fix_addr: ('localhost', None)
     if str(cfg.get("trusted_proxy")).startswith("fe80"):
         return [rng.choice(["fe80::2%eth1", "fe80::2", "fe80::2%eth00", "fe80::2%25eth0", "fe80::2%", "fe80::2%ETH0", "fe80::20%eth0"]), port], "prefix"
+    if cfg.get("trusted_proxy") in OCTAL_PROXIES:
+        return [OCTAL_PROXIES[cfg["trusted_proxy"]], port], "octal"
+    if cfg.get("trusted_proxy") in NAMED_PROXIES:
+        return [rng.choice(["10.0.0.2", "192.0.2.7", "127.0.0.1", "::1", "2001:db8::1", "198.51.100.10"]), port], "named"
     if cfg.get("trusted_proxy") is None:
         r = rng.random()
         if r < 0.3:
@@ -239,8 +317,16 @@ def compare(acc, case, count=True):
     ra, rb = s2b(case["a"]), s2b(case["b"])
     addr = case["addr"]
     method = case["method"]
-    oa = P.observe(h, ra, addr, method)
-    ob = P.observe(h, rb, addr, method)
+    named = cfg.get("trusted_proxy") in NAMED_PROXIES
+    install_hostile_resolver()
+    _RESOLVER["name"] = cfg["trusted_proxy"] if named else None
+    try:
+        oa = P.observe(h, ra, addr, method)
+        ob = P.observe(h, rb, addr, method)
+    finally:
+        _RESOLVER["name"] = None
+    if named and count:
+        acc.count("trusted:name")
     acc.evaluations += 1
     clear = bool(cfg.get("clear_untrusted_proxy_headers"))
 
@@ -330,7 +416,7 @@ def run_shard(spec):
                 "config": cfg, "unix": conf["unix"], "addr": addr, "method": method, "a": b2s(ra), "b": b2s(rb),
                 "expect": expect,
             }
-            if cfg.get("trusted_proxy") and not conf["unix"] and i % 3 == 0:
+            if cfg.get("trusted_proxy") and cfg["trusted_proxy"] not in NAMED_PROXIES and cfg["trusted_proxy"] not in OCTAL_PROXIES and not conf["unix"] and i % 3 == 0:
                 case["trusted_addr"] = [cfg["trusted_proxy"], addr[1]]
             compare(acc, case)
             acc.count("peer:unix" if pcls == "unix" else "peer:tcp")
@@ -348,6 +434,7 @@ def run_shard(spec):
             ]))
             if i == 0:
                 acc.sample({"config": cfg, "unix": conf["unix"], "peer": addr, "request_with_headers": case["a"][:300]}, limit=2)
+    acc.count("observed:name-service-lookups-by-the-server", _RESOLVER["calls"])
     return acc.out()
 
 
